@@ -519,6 +519,59 @@ Section Kernel.
     end.
 
   (* ---------- the operations of a program ---------- *)
+  (* ---------- one operator / function application (shared by [step] and [eval_un]) ---------- *)
+  Inductive operand := OpdU (o : ureal) | OpdN (v : V).
+
+  Definition apply_un (f : unop) (oa : ureal) : res opval :=
+    r <- g_unop f (ux oa) ;; realize r oa oa.
+
+  Definition apply_bin (f : binop) (a b : operand) : res opval :=
+    match a, b with
+    | OpdU oa, OpdU ob => r <- g_bin_uu f (ux oa) (ux ob) ;; realize r oa ob
+    | OpdU oa, OpdN v => r <- g_bin_un f (ux oa) v ;; realize r oa oa
+    | OpdN v, OpdU ob => r <- g_bin_nu f v (ux ob) ;; realize r ob ob
+    | OpdN _, OpdN _ => Err TypeError
+    end.
+
+  (* which object an operation result denotes, given the operand objects *)
+  Definition of_opval (v : opval) (l r : ureal) : res operand :=
+    match v with
+    | VObj o => Ok (OpdU o)
+    | VSame L => Ok (OpdU l)
+    | VSame Rt => Ok (OpdU r)
+    | VPlain x => Ok (OpdN x)
+    | VComplex => Err ComplexResult
+    end.
+
+  (* expression trees over objects already present in a state (inputs, earlier results) and
+     plain numbers; evaluated with exactly the code [step] uses *)
+  Inductive expr :=
+  | EVar (i : nat)
+  | ENum (v : V)
+  | EUn (f : unop) (e : expr)
+  | EBin (f : binop) (e1 e2 : expr).
+
+  Fixpoint eval_un (s : state) (e : expr) : res operand :=
+    match e with
+    | EVar i => '(_, o, _) <- get_real s i ;; Ok (OpdU o)
+    | ENum v => Ok (OpdN v)
+    | EUn f e1 =>
+        a <- eval_un s e1 ;;
+        match a with
+        | OpdU oa => v <- apply_un f oa ;; of_opval v oa oa
+        | OpdN _ => Err TypeError
+        end
+    | EBin f e1 e2 =>
+        a <- eval_un s e1 ;; b <- eval_un s e2 ;;
+        v <- apply_bin f a b ;;
+        match a, b with
+        | OpdU oa, OpdU ob => of_opval v oa ob
+        | OpdU oa, OpdN _ => of_opval v oa oa
+        | OpdN _, OpdU ob => of_opval v ob ob
+        | OpdN _, OpdN _ => Err TypeError
+        end
+    end.
+
   Definition fail (s : state) (e : exn) : state * out := (push s SErr, OutExn e).
 
   Definition finish_opval (s : state) (v : res opval) (ia ib : nat) : state * out :=
@@ -588,23 +641,23 @@ Section Kernel.
         match get_real s a with
         | Err e => fail s e
         | Ok (ja, oa, _) =>
-            finish_opval s (r <- g_unop f (ux oa) ;; realize r oa oa) ja ja
+            finish_opval s (apply_un f oa) ja ja
         end
     | OpBin f (ARef a) (ARef b) =>
         match get_real s a, get_real s b with
         | Ok (ja, oa, _), Ok (jb, ob, _) =>
-            finish_opval s (r <- g_bin_uu f (ux oa) (ux ob) ;; realize r oa ob) ja jb
+            finish_opval s (apply_bin f (OpdU oa) (OpdU ob)) ja jb
         | Err e, _ => fail s e
         | _, Err e => fail s e
         end
     | OpBin f (ARef a) (ANum v) =>
         match get_real s a with
-        | Ok (ja, oa, _) => finish_opval s (r <- g_bin_un f (ux oa) v ;; realize r oa oa) ja ja
+        | Ok (ja, oa, _) => finish_opval s (apply_bin f (OpdU oa) (OpdN v)) ja ja
         | Err e => fail s e
         end
     | OpBin f (ANum v) (ARef b) =>
         match get_real s b with
-        | Ok (jb, ob, _) => finish_opval s (r <- g_bin_nu f v (ux ob) ;; realize r ob ob) jb jb
+        | Ok (jb, ob, _) => finish_opval s (apply_bin f (OpdN v) (OpdU ob)) jb jb
         | Err e => fail s e
         end
     | OpBin _ (ANum _) (ANum _) => fail s TypeError
@@ -776,3 +829,6 @@ Section Kernel.
     | _, _ => Some i
     end.
 End Kernel.
+
+Arguments OpdU {N} o.
+Arguments OpdN {N} v.
